@@ -244,13 +244,15 @@ def unionInto (acc : List Triple) : List Triple → List Triple
 def State.jsonldOwnDefault (s : State) (cs : List GName) : Bool :=
   decide (GName.dflt ∈ cs) && decide (s.dname = .dflt)
 
-/-- the loop over `all_contexts` of the repaired code: non-IRI-named graphs are merged into a
+/-- the loop over `all_contexts` of the repaired code: IRI-named and blank-node-named graphs are written as
+    named graphs; unnamed content (the blank-node default context of a ConjunctiveGraph) is merged into a
     SCRATCH graph (`default_graph = Graph(identifier=…)` seeded with the default graph's triples). -/
 def jsonldLoop (own : Bool) (acc : JAcc) : List GName → JAcc
   | [] => acc
   | g :: gs =>
     if (own && decide (g = .dflt)) || decide (g ∈ acc.named) then jsonldLoop own acc gs        -- `if g in graphs: continue`
-    else if g.isIri then jsonldLoop own { acc with named := acc.named ++ [g] } gs
+    else if g.isIri || decide (g ≠ acc.self.dname) then                                     -- IRI, or a blank node other than the own default
+      jsonldLoop own { acc with named := acc.named ++ [g] } gs
     else jsonldLoop own { acc with scratch := unionInto acc.scratch (triplesOf acc.self.quads g) } gs
 
 def jsonldRun (s1 : State) (cs : List GName) : JAcc :=
@@ -291,41 +293,82 @@ structure View where
   dflt : List Triple
   named : List (GName × List Triple)
 
+/-- one entry of the dataset clause, in query order -/
+inductive Clause
+  | dflt (g : GName)      -- FROM <g>
+  | named (g : GName)     -- FROM NAMED <g>
+  deriving DecidableEq, Repr
+
 /-- the state-relevant shape of a query; `body` = the evaluation proper (algebra, paths, filters,
-    CONSTRUCT template / DESCRIBE closure into a fresh `Graph()`), a function of the view -/
+    CONSTRUCT template / DESCRIBE closure into a fresh `Graph()`), a function of the view.
+    `docs g` = what dereferencing the IRI `g` yields (`none`: it cannot be loaded, `QueryContext.load` raises);
+    `loadGraphs` = `rdflib.plugins.sparql.SPARQL_LOAD_GRAPHS`. -/
 structure QShape where
-  froms : List GName
-  fromNamed : List GName
+  clauses : List Clause
   graphVar : Bool                       -- `GRAPH ?g { … }`: evalGraph calls `ctx.dataset.contexts()`
+  loadGraphs : Bool
+  docs : GName → Option (List Triple)
   body : View → List (List Nat)
 
 /-- an empty scratch `Dataset()` (QueryContext.__init__ with a dataset clause) -/
 def emptyDataset : State := ⟨[], [], false, true, .dflt⟩
 
-def loadDefault (src : State) (acc : List Triple) : List GName → List Triple
-  | [] => acc
-  | g :: gs => loadDefault src (unionInto acc (triplesOf src.quads g)) gs     -- `self.graph += graph.get_context(d.default)`
+/-- the query context built for a dataset clause: `self.graph = Graph()`, `self._dataset = Dataset()` —
+    both FRESH objects with their own stores -/
+structure QCtx where
+  graph : List Triple
+  ds : State
 
-def loadNamed (src : State) (scr : State) : List GName → State
-  | [] => scr
-  | g :: gs => loadNamed src (scr.addAll (tagWith g (triplesOf src.quads g))) gs   -- into the NEW dataset's store
+/-- `QueryContext.load(source, default)`:
+    not loading → `if default: self.graph += self.dataset.get_context(source)` (the context's OWN dataset);
+    loading → parse the document into `self.graph` / into `self.dataset.get_context(source)`.
+    Either way the target is a scratch object of the context, never the queried dataset. -/
+def qLoad (loadGraphs : Bool) (docs : GName → Option (List Triple)) (c : QCtx) (src : GName) (dflt : Bool) :
+    Option QCtx :=
+  if loadGraphs then
+    match docs src with
+    | none => none
+    | some ts =>
+      if dflt then some { c with graph := unionInto c.graph ts }
+      else some { c with ds := c.ds.addAll (tagWith src ts) }
+  else
+    if dflt then some { c with graph := unionInto c.graph (triplesOf c.ds.quads src) } else some c
+
+/-- the loop over `datasetClause` in `QueryContext.__init__`: copy the named graph of the queried
+    dataset `src` into the scratch graph / scratch dataset; when it is empty (falsy), `load` its IRI. -/
+def qInit (src : State) (loadGraphs : Bool) (docs : GName → Option (List Triple)) :
+    QCtx → List Clause → Option QCtx
+  | c, [] => some c
+  | c, .dflt g :: cs =>
+    if (triplesOf src.quads g).isEmpty then
+      match qLoad loadGraphs docs c g true with                 -- `self.graph += <empty>` adds nothing
+      | none => none
+      | some c' => qInit src loadGraphs docs c' cs
+    else qInit src loadGraphs docs { c with graph := unionInto c.graph (triplesOf src.quads g) } cs
+  | c, .named g :: cs =>
+    if (triplesOf src.quads g).isEmpty then
+      match qLoad loadGraphs docs c g false with
+      | none => none
+      | some c' => qInit src loadGraphs docs c' cs
+    else qInit src loadGraphs docs { c with ds := c.ds.addAll (tagWith g (triplesOf src.quads g)) } cs
 
 def namedBlocks (st : State) (cs : List GName) : List (GName × List Triple) :=
   blocksOf st.quads (cs.filter (fun g => g ≠ st.dname))
 
 def State.query (s : State) (q : QShape) : State × Out :=
-  if q.froms.isEmpty && q.fromNamed.isEmpty then
+  if q.clauses.isEmpty then
     -- `self._dataset = graph`: the query runs on the dataset itself
     if q.graphVar then
       (s.contextsCall.1, .rows (q.body ⟨s.contextsCall.1.visible, namedBlocks s.contextsCall.1 s.contextsCall.2⟩))
     else (s, .rows (q.body ⟨s.visible, []⟩))
   else
-    -- `self._dataset = Dataset(); self.graph = Graph()`: everything is copied into scratch objects
-    let dg := loadDefault s [] q.froms
-    let scr := loadNamed s emptyDataset q.fromNamed
-    if q.graphVar then
-      (s, .rows (q.body ⟨dg, namedBlocks scr.contextsCall.1 scr.contextsCall.2⟩))
-    else (s, .rows (q.body ⟨dg, []⟩))
+    -- `self._dataset = Dataset(); self.graph = Graph()`: everything is copied / loaded into scratch objects
+    match qInit s q.loadGraphs q.docs ⟨[], emptyDataset⟩ q.clauses with
+    | none => (s, .err)                                          -- "Could not load …"
+    | some c =>
+      if q.graphVar then
+        (s, .rows (q.body ⟨c.graph, namedBlocks c.ds.contextsCall.1 c.ds.contextsCall.2⟩))
+      else (s, .rows (q.body ⟨c.graph, []⟩))
 
 /-! ### property paths (seen-set traversal over the active graph; a function of its triples) -/
 
